@@ -194,7 +194,11 @@ def static_check(pid, tier, kinds, cert, rule_kind, rule, sems="GR,CO,PR,ST,SST,
     if after:
         after(res, sets)
     res.nontrivial = nontrivial_static(allsegs, res, rule_kind)
-    res.rule = rule
+    res.rule = rule + ("; framework sets: all <= 3 arguments, isomorphism classes of 4, shaped (cycles, chains, funnels around the hybrid threshold, "
+                       "choice chains), random 5-8(9), mid 10-13, unions of gadgets, frameworks padded with sinks (components of 40-500 arguments, core ids "
+                       "spread), big funnels (d^k around 2^16) and sparse / layered / gadget-soup frameworks of 20-300 arguments judged through the "
+                       "grounded reduct; presentations compact / sparse ids / duplicated attack lines; every encoder; depth-first exploration of the "
+                       "SAT-model choices; query sequences on reused solver objects")
     for seg in allsegs[-3:]:
         qs = [e for e in seg if e.get("ev") == "q"]
         if qs:
@@ -342,7 +346,8 @@ def c12(tier):
     res.nontrivial = len(nt)
     res.rule = ("every (state, operation) edge of Store.tla's state graph (3 labels, ids <= 4/5) executed on AAFramework<usize> and "
                 "AAFramework<String>, plus seeded random histories over 3-6 labels; non-trivial = event after at least one successful removal "
-                "(tombstones / id holes present), distinct by (history start, operation, projection)")
+                "(tombstones / id holes present), distinct by (history start, operation, projection); wide walks of 36-160 labels with hub arguments "
+                "of degree 50-150 (every 12th state projected in full); AspartixWriter/Reader round trips along the string walks")
     res.samples = [{"history_start": segs[len(segs) // 2][0], "events": segs[len(segs) // 2][1:4]}]
     res.exhaustive = False
     res.extra["exhaustive_part"] = "all (state, operation) edges of the abstract store with 3 labels and <= %d issued ids; StoreImpl refinement for all concrete states within MaxIds/MaxAttVec" % (5 if thorough else 4)
@@ -433,7 +438,9 @@ def dynamic_check(pid, tier, mode):
     res.rule = ("histories = one shortest update history per state of Store.tla (3 labels; exported by MCStore) with query rounds at random "
                 "intermediate points and at the end, on each of the 13 solver configurations (6 types; attack variants with factors 1,1.25,1.5,2,3; "
                 "recompute wrapper over CO/ST/PR/SST), with CaDiCaL and with a seeded random model choice; plus seeded random walks of 40-300 "
-                "operations over 3-6 labels re-adding removed labels%s. non-trivial = query answered after at least one removal, distinct by "
+                "operations over 3-6 labels re-adding removed labels%s; every query-free batch of <= 5 effective updates from every logical state over "
+                "2 labels (MCBatch); the frameworks of the static checks (4-9 arguments) built through histories with detours and queried in random "
+                "order with repetitions (targets); wide histories (18-26 labels, update results only). non-trivial = query answered after at least one removal, distinct by "
                 "(solver, query, answer, certificate, history length)" % ("; redundant / invalid operations inserted at random positions" if mode == "c09" else ""))
     res.exhaustive = False
     res.assumptions = ["the logical framework is carried by TraceDynamic with Store.tla's Step", "certificates of dynamic solvers are judged by label (their argument set is private)"]
@@ -513,7 +520,9 @@ def c06(tier):
     res.nontrivial = nt
     res.rule = ("per framework and per (semantics, DC|DS): one solver object per (encoder, backend) answers a seeded sequence of 2n+2 queries with "
                 "repetitions and random certificate flag; one 'agree' event per (semantics, kind, argument) listing the distinct statuses over all "
-                "configurations and positions; non-trivial = agree event backed by >= 4 answers")
+                "configurations and positions; plus, per query, the statuses over every encoder x certificate flag x explored SAT-model schedule of the real "
+                "code (depth-first oracle exploration; compact frameworks of 5-10 arguments and padded components of 40-500); "
+                "non-trivial = agree event backed by >= 4 answers")
     res.exhaustive = False
     res.assumptions = ["external backend = harness/src/bin/fakesat.rs (strict DIMACS checker over CaDiCaL); kissat in the thorough tier",
                        "that each individual status is the right one is decided by C02/C03, not here"]
@@ -566,7 +575,8 @@ def c18(tier):
         res.add_judge(name, t1, st, only_props={"C18"})
     res.nontrivial = len(nt)
     res.rule = ("one 'cc' event per distinct (query kind, component, number of SAT calls, sequence of decoded candidate sets) over all explored "
-                "SAT-model schedules, calls summed per query and per component over the solver instances that worked on it; "
+                "SAT-model schedules, calls summed per query and per component over the solver instances that worked on it; the dynamic preferred "
+                "solver along update histories (MCStore, MCBatch, random walks) under a cap of 400 SAT calls per query (termination only); "
                 "non-trivial = component on which >= 3 SAT calls were made")
     res.exhaustive = False
     res.assumptions = ["the component is the sub-framework handed to the encoder (observed by TracingEncoder)", "bounds as stated in the property's quantifier text"]
@@ -643,7 +653,9 @@ def c17(tier):
     res.nontrivial = len(nt)
     res.rule = ("for every query a fault-free run counts the SAT calls k, then one run per position 1..k with the backend answering Unknown at "
                 "that call (FaultySat through the public factory); separately every SAT call fails through a real process (fakesat modes: exit "
-                "without output, truncated model, garbage line right after the answer or 9-70 KB later, status without model, crash, model without terminating 0); "
+                "without output, truncated model, garbage line right after the answer or 9-70 KB later, status without model, crash, model without terminating 0), "
+                "or only the K-th one does (lists of two arguments over several components); `crustabri solve --external-sat-solver` with such "
+                "backends (exit status and stdout judged when the failing call was reached); "
                 "non-trivial = distinct (framework, query, encoder, fault position, fault kind) in which the fault was actually injected")
     res.exhaustive = False
     res.extra["exhaustive_part"] = "all frameworks <= 3 arguments x all problems x every SAT-call position (Unknown result)"
@@ -701,7 +713,7 @@ def c15(tier):
             res.samples.append({"backend": s[0]["backend"], "history": s[1:8]})
     res.nontrivial = len(nt)
     res.rule = ("histories = one per distinct solver state of Sat.tla (3 variables, clause universe of empty/unit/binary clauses, exported by MCSat) with a "
-                "solve between additions and all assumption sets of size <= 2 (plus an assumption on an unseen variable) at the end, on CadicalSolver and "
+                "solve between additions and all assumption sets of size <= 2, contradictory ones included (plus assumptions on unseen variables) at the end, on CadicalSolver and "
                 "ExternalSatSolver (kissat, fakesat); plus seeded random histories over 4-8 variables; non-trivial = solve under assumptions after >= 2 clauses")
     res.exhaustive = False
     res.assumptions = ["kissat and fakesat (CaDiCaL behind a strict DIMACS reader) are correct SAT solvers"]
@@ -780,7 +792,8 @@ def c16(tier):
     res.samples = [segs[0][len(segs[0]) // 2] if segs else {}, dim[len(dim) // 2] if dim else {}] + [e for s in segs for e in s if e["ev"] == "volume"][:2]
     res.rule = ("replies = all sequences of <= %d lines over 13 line kinds (exported by MCExtReply) concretised and read by the real parser through a "
                 "process; volumes = real calls whose reply is padded to 1 KiB..8 MiB (below and above the 64 KiB pipe capacity), split v lines, reply "
-                "before stdin is consumed, each under a 20 s cap; headers = every DIMACS instance received by the external program during real "
+                "before / while / without consuming stdin crossed with instances of 200 KiB - 1.5 MB, garbage 0-200 KB after a complete answer, each under a "
+                "20 s cap; the exchange failing at the K-th call of a query (lists over several components); headers = every DIMACS instance received by the external program during real "
                 "queries (all semantics, encoders' defaults); non-trivial = reply of >= 2 lines, a volume mode, or a distinct header with >= 4 clauses" % (4 if thorough else 3))
     res.exhaustive = False
     res.assumptions = ["OS pipe capacity 64 KiB (Linux default)", "fakesat logs exactly the bytes it received"]
@@ -833,8 +846,9 @@ def c13(tier):
         len(set((e["fmt"], e["origin"], e["len"], e["res"]) for e in evs if e["ev"] == "total"))
     fe = [e for e in evs if e["ev"] == "file" and len(e["lines"]) >= 3]
     res.samples = [fe[len(fe) // 3], fe[2 * len(fe) // 3], [e for e in evs if e["ev"] == "total"][7]]
-    res.rule = ("files = all sequences of <= %d lines over 18 (ICCMA) / 17 (Aspartix) line kinds exported by MCReader with the verdict of Reader.tla, "
-                "each concretised twice (LF; CRLF | no final newline | extra spaces); query-argument strings; seeded byte-level and token-level "
+    res.rule = ("files = all sequences of <= %d lines over 20 (ICCMA, incl. lines that are not UTF-8) / 17 (Aspartix) line kinds exported by MCReader with the verdict of "
+                "Reader.tla, each concretised twice or three times (LF; CRLF | no final newline | extra spaces; physical lines of 8-128 KiB), read by fresh and by "
+                "reused reader objects; large files (40-4000 arguments with hubs; 65 535-131 073 declared arguments); query-argument strings; seeded byte-level and token-level "
                 "corruption of well-formed files, raw random bytes and token soups (totality only); non-trivial = accepted file of >= 3 lines, "
                 "or a distinct (format, origin, length, outcome) fuzz case" % maxl)
     res.exhaustive = False
@@ -927,7 +941,8 @@ def c10(tier):
     res.nontrivial = len(nt)
     res.rule = ("per framework (compact ids) x {aux_var cf/adm/co, exp cf/co, hybrid, default stable} x {plain, range}: the real clause set captured "
                 "through SatSolver::add_clause, all its models enumerated and projected on arg_to_lit / first_range_var; encoder objects are reused along "
-                "the list of frameworks; non-trivial = clause set with >= 4 clauses and >= 2 model projections")
+                "the list of frameworks; frameworks padded with sinks (40-500 arguments, core ids spread with strides 32 / 64) and huge ones (65 540-131 080 "
+                "arguments, core ids around 2^16 and 2^17) judged through the lifting / product theorems; non-trivial = clause set with >= 4 clauses and >= 2 model projections")
     res.exhaustive = False
     res.extra["exhaustive_part"] = "all frameworks <= 3 arguments x 13 encoder variants (real code); Enc.tla transcription model-checked with threshold 2"
     res.assumptions = ["the harness' CaDiCaL-based all-models enumerator (validated against TLC's brute force on every clause set with <= 9 variables)"]
@@ -978,7 +993,8 @@ def c19(tier):
                 res.samples.append(cand[len(cand) // 2])
     res.nontrivial = len(nt)
     res.rule = ("all frameworks <= 3 arguments, isomorphism classes of 4-argument frameworks, shaped and seeded random frameworks of 4-9 arguments "
-                "(compact ids; every third one through the ICCMA reader with duplicated attack lines) through EquivalencyComputer; "
+                "(compact ids; every third one through the ICCMA reader with duplicated attack lines), padded frameworks, frameworks of 20-500 arguments with "
+                "64-200 unattacked arguments or a small undecided part (grounded reduct), 3000-7000 arguments (bookkeeping) through EquivalencyComputer; "
                 "non-trivial = reduction with a merged class of >= 2 arguments and >= 2 classes")
     res.exhaustive = False
     res.extra["exhaustive_part"] = "all frameworks <= 3 arguments" + ("; all 3044 isomorphism classes of 4-argument frameworks" if thorough else "")
@@ -1024,7 +1040,8 @@ def c11(tier):
     res.rule = ("base instances: sparse random, layered and cycle-union graphs of 20-300 arguments (semantics capped by size: GR/CO/ST <= 300, PR <= 120, "
                 "SST/STG/ID <= 50), random/shaped/grounded-mix frameworks of 6-16 arguments, 3-argument frameworks; for each, 6 sampled arguments x DC/DS x "
                 "semantics on the instance and on 4 transforms (argument permutation + attack reordering, duplicated/reordered ICCMA attack lines, union "
-                "with a component with / without a stable extension), plus one cross-semantics event; non-trivial = pair whose base statuses are not all equal")
+                "with a component with / without a stable extension, padding with sinks), each under every encoder choice (all three up to 16 arguments, in "
+                "rotation beyond), plus one cross-semantics event; non-trivial = pair whose base statuses are not all equal")
     res.exhaustive = False
     res.extra["exhaustive_part"] = "the relations as theorems over all frameworks <= %d arguments (MCDung)" % (4 if thorough else 3)
     res.assumptions = ["on 20-300 arguments only relations between runs and polynomial necessary conditions are judged (DESIGN.md section 8)"]
@@ -1075,7 +1092,8 @@ def c05(tier):
     res.samples = [next(e for e in ce if e["exit"] == 0 and e["wline"]), next(e for e in ce if e["exit"] != 0), ce[len(ce) // 2]]
     res.rule = ("abstract invocations = the space enumerated by MCCli (binary x file kind x format x problem class x query kind x argument class x encoding x "
                 "certificate x logging: %d legal combinations) with the outcome of Cli.tla; each is concretised (random semantics, casing, argument) on a "
-                "framework written in both formats and run through the real binaries; answers are parsed and judged by the C01-C04 predicates; "
+                "framework written in both formats (plus a file with a comment that is not UTF-8) and run through the real binaries; instances of 1100-2600 "
+                "arguments (witness lines of several KiB); answers are parsed and judged by the C01-C04 predicates; "
                 "non-trivial = distinct (invocation, semantics, exit status, printed answer)" % len(invs))
     res.exhaustive = False
     res.extra["abstract_invocations"] = len(invs)
